@@ -335,7 +335,9 @@ macro_rules! group_impl {
             }
             pub fn show_aff(a: &$aff) -> String {
                 if a.is_zero() {
-                    "inf".to_string()
+                    // the affine identity is (0, 1, infinity): affine equality is derived field by field, so an identity
+                    // record with other coordinates is observably different from zero() although is_zero() holds
+                    if *a == <$aff>::zero() { "inf".to_string() } else { let (x, y) = a.as_tuple(); format!("inf-noncanonical:{}/{}", x.show(), y.show()) }
                 } else {
                     let (x, y) = a.as_tuple();
                     format!("{}/{}", x.show(), y.show())
